@@ -1575,9 +1575,21 @@ def robust_cases():
     small = dict(rm1=2, rm2=2, keep=['always'], outs1=[1, 2, 's', 1, 2, 1, 1, 1], clk1=[], outs2=[3] * 10, clk2=[],
                  ext='')
     rich = spec_of((2,), rich=True)
+    import copy
     for kind in VARIANTS:
-        p2 = make_variant(rng, rich, kind)
-        out.append(dict(small, p1=rich, p2=p2, variant=kind, rm2=4 if kind == 'repmax' else 2))
+        p1k = copy.deepcopy(rich)           # some kinds (shape-changed, value-close) also adjust run 1's parameters
+        p2 = make_variant(rng, p1k, kind)
+        out.append(dict(small, p1=p1k, p2=p2, variant=kind, rm2=4 if kind == 'repmax' else 2))
+    # a difference only in a LATER combination (the first partial file found still matches): the last value of the
+    # grid changed, the second unpacked parameter changed, the grid extended / shrunk at its end
+    two = spec_of((2, 2), rich=True)
+    for p1k, p2k, kind in (
+            (rich, dict(rich, vals={'a': [rich['vals']['a'][0], 99]}), 'value-changed'),
+            (two, dict(two, vals=dict(two['vals'], b=[two['vals']['b'][0], 98])), 'value-changed'),
+            (two, dict(two, vals=dict(two['vals'], a=[two['vals']['a'][0], 97])), 'value-changed'),
+            (rich, dict(rich, vals={'a': rich['vals']['a'] + [77]}), 'grid-extended'),
+            (rich, dict(rich, vals={'a': rich['vals']['a'][:1]}), 'grid-shrunk')):
+        out.append(dict(small, p1=p1k, p2=p2k, variant=kind, outs1=[1] * 12, outs2=[3] * 14))
     # the remaining choices of the added / shape-changed kinds
     for v in (0, None, ''):
         out.append(dict(small, p1=rich, p2=dict(rich, fixed=dict(rich['fixed'], new0=v)), variant='param-added-scalar'))
